@@ -12,6 +12,7 @@ objects, loop records) are those it found (`exec_simple_fail_tab`).
 import ZygoVerif.Proofs.RunMain
 import ZygoVerif.Proofs.ContainFrame
 import ZygoVerif.Proofs.ContainExact
+import ZygoVerif.Proofs.C01VM
 
 namespace ZygoVerif.RunInv
 open ZygoVerif.Core ZygoVerif.VM ZygoVerif.Bal ZygoVerif.Refine ZygoVerif.Sim ZygoVerif.Contain
@@ -443,6 +444,14 @@ theorem exec_simple_fail_tab (n : Nat) (i : Instr) (s : St) (hs : simple i = tru
 
 /-! ## The fault state of a loop -/
 
+/-- the lazy arguments captured scope stacks without nil cells, and those still to be forced a
+non-empty one -/
+def LzOK (s : St) : Prop :=
+  (∀ z ∈ s.lazies, VMSafe.allSome z.stack) ∧ (∀ z ∈ s.lazies, z.value = none → z.stack ≠ [])
+
+theorem LzOK.same {s s' : St} (h : LzOK s) (e : s'.lazies = s.lazies) : LzOK s' := by
+  unfold LzOK; rw [e]; exact h
+
 /-- what the loop needs of the state a failing instruction leaves: good tables, tables only
 grown, the set-aside stacks as before, the scope stack of the base still underneath -/
 structure FaultOK (b : Base) (s₀ s₁ : St) : Prop where
@@ -450,16 +459,17 @@ structure FaultOK (b : Base) (s₀ s₁ : St) : Prop where
   ext : TExt s₀ s₁
   susp : s₁.suspended = s₀.suspended
   lin : b.linear <:+ s₁.linear
+  lz : LzOK s₁
 
 /-- (C1) a failing non-call instruction leaves such a state -/
 theorem faultOK_simple {b : Base} {s s₁ : St} {top : Act} {rest : List Act} (hw : WF s) (hr : Running b s top rest) {i : Instr}
     (hf : (fnOf s s.curfunc).code[s.pc.toNat]? = some i) (hs : simple i = true) (n : Nat) (e : Fault)
-    (h : (exec (n + 1) i).run s = (.error e, s₁)) : FaultOK b s s₁ := by
+    (h : (exec (n + 1) i).run s = (.error e, s₁)) (hlz : LzOK s) : FaultOK b s s₁ := by
   have ht := exec_simple_fail_tab n i s hs e s₁ h
   obtain ⟨l1, l2, l3, _⟩ := exec_simple_above_la hr hf hs n
   rw [h] at l1 l2 l3
   have he : TExt s s₁ := TExt.same ht.fns ht.loops
-  refine ⟨?_, he, l2, l1⟩
+  refine ⟨?_, he, l2, l1, hlz.same ht.lazies⟩
   have he' : TExt s { s₁ with data := [] } := TExt.same ht.fns ht.loops
   refine hw.mk' he' (fun id h1 h2 => ?_) (l3.trans hw.loopstack) ?_ ?_ ?_ (fun c hc => by cases hc)
   · have : ({ s₁ with data := [] } : St).fns.length = s.fns.length := by show s₁.fns.length = _; rw [ht.fns]
@@ -470,234 +480,5 @@ theorem faultOK_simple {b : Base} {s s₁ : St} {top : Act} {rest : List Act} (h
     rw [ht.heap, ht.fns]; exact hw.heap
   · show ∀ lz ∈ s₁.lazies, okL lz.e = true ∧ ∀ v, lz.value = some v → vok s₁.fns.length v = true
     rw [ht.lazies, ht.fns]; exact hw.lazies
-
-/-- **The loop over the top-level text on the error exit**: there is a fault — a state of the
-run that satisfies the invariant, the instruction fetched there, and the state its failing
-`exec` left — and the loop's result is that state restored and parked. -/
-theorem main_loop_err (b : Base) (a0 : Act) (ha0 : a0.A = 0) :
-    ∀ (n : Nat) (st : CtlState) (s s' : St), Holds b a0 [] s → (runLoop n st).run s = (.error .err, s') →
-      ∃ s₀ top rest i m s₁, WF s₀ ∧ Running b s₀ top rest ∧ TExt s s₀ ∧ s₀.suspended = s.suspended ∧
-        (fnOf s₀ s₀.curfunc).code[s₀.pc.toNat]? = some i ∧ (exec m i).run s₀ = (.error .err, s₁) ∧
-        s' = park (restoreSt st s₁)
-  | 0, st, s, s', _, hex => by rw [runLoop_zero] at hex; cases hex
-  | n + 1, st, s, s', hh, hex => by
-    rw [runLoop] at hex
-    by_cases hns : (s.pc = -1 ∨ s.pc ≥ curSize s)
-    · simp only [run_bind, run_get, run_ite, hns, if_true, run_pure] at hex
-      cases hex
-    · cases hi : (fnOf s s.curfunc).code[s.pc.toNat]? with
-      | none =>
-        simp only [run_bind, run_get, run_ite, hns, if_false, hi, run_pure] at hex
-        cases hex
-      | some i =>
-        simp only [run_bind, run_get, run_ite, hns, if_false, hi] at hex
-        rcases hx : (exec n i).run s with ⟨r, s1⟩
-        simp only [hx, run_set] at hex
-        cases r with
-        | error e =>
-          cases e with
-          | err =>
-            simp only [run_bind, run_restore, run_modify, run_throw] at hex
-            obtain ⟨hw, upper, top, rest, hr, _⟩ := hh
-            refine ⟨s, top, rest, i, n, s1, hw, hr, TExt.refl _, rfl, hi, hx, ?_⟩
-            injection hex with _ h2
-            exact h2.symm
-          | panic => simp only [run_throw] at hex; cases hex
-          | timeout => simp only [run_throw] at hex; cases hex
-        | ok u =>
-          cases n with
-          | zero => simp only [VM.exec, run_throw] at hx; cases hx
-          | succ m =>
-            have hv : VmStep s s1 := ⟨m, i, hns, hi, hx⟩
-            obtain ⟨hh1, he1, hs1⟩ := holds_step_ext hh hv (by rw [ha0]; exact Nat.zero_le _)
-            obtain ⟨s₀, top, rest, i', m', s₁, q1, q2, q3, q4, q5, q6, q7⟩ := main_loop_err b a0 ha0 (m + 1) st s1 s' hh1 hex
-            exact ⟨s₀, top, rest, i', m', s₁, q1, q2, he1.trans q3, q4.trans hs1, q5, q6, q7⟩
-
-/-- **`Run` on a loaded text that ends in an error**: there is a fault (see `main_loop_err`),
-and if the state the failing instruction left is `FaultOK`, the interpreter is back at rest —
-the three stacks EXACTLY those of entry — with the table invariant and the facts about
-`mainfunc`. -/
-theorem run_loaded_err {s1 : St} (code : List Instr) (as : List AState) (N fuel : Nat) (s' : St)
-    (hw : WF s1) (hd : s1.data = []) (ha : s1.addr = []) (hsu : s1.suspended = [])
-    (hu : (fnOf s1 mainFn).user = false) (hold : AllOK (szS s1) (fnOf s1 mainFn).code)
-    (hoids : idsIn (fnOf s1 mainFn).code 0 N) (hids : idsIn code N s1.loops.length) (hN : N ≤ s1.loops.length)
-    (hpc : s1.pc = ((fnOf s1 mainFn).code.length : Int)) (hcode : AllOK (szS s1) code)
-    (hfrag : FragOK mainEnv (B s1.loops code) as) (h0 : as[0]? = some restState)
-    (hex : (run fuel).run (loaded s1 code) = (.error .err, s')) :
-    ∃ b s₀ top rest i m s₁, b.main = true ∧ WF s₀ ∧ Running b s₀ top rest ∧
-      (fnOf s₀ s₀.curfunc).code[s₀.pc.toNat]? = some i ∧ (exec m i).run s₀ = (.error .err, s₁) ∧
-      (FaultOK b s₀ s₁ → WF s' ∧ MainOK s' ∧ s'.data = [] ∧ s'.linear = s1.linear ∧ s'.addr = [] ∧ s'.loopstack = [] ∧
-        s'.curfunc = mainFn ∧ s'.suspended = []) := by
-  obtain ⟨b, a0, hbm, hA, hbl, hh⟩ := loaded_running code as N hw hd ha hu hold hoids hids hN hpc hcode hfrag h0
-  obtain ⟨s2, hs2⟩ : ∃ s2, s2 = loaded s1 code := ⟨_, rfl⟩
-  rw [← hs2] at hex hh
-  have hw2 := hh.1
-  have hmain : fnOf s2 mainFn = { (fnOf s1 mainFn) with code := (fnOf s1 mainFn).code ++ code } := by
-    rw [hs2]; exact loaded_main s1 code hw.two
-  have hsz : szS s2 = szS s1 := by rw [hs2]; simp only [szS, loaded_len]; rfl
-  have hloops : s2.loops = s1.loops := by rw [hs2]; rfl
-  have hcodeM : (fnOf s2 mainFn).code = (fnOf s1 mainFn).code ++ code := by rw [hmain]
-  have hidsM : idsIn ((fnOf s1 mainFn).code ++ code) 0 s1.loops.length := idsIn_app hoids hids (Nat.zero_le _) hN
-  cases fuel with
-  | zero => simp only [VM.run, run_throw] at hex; cases hex
-  | succ n =>
-    rw [run_succ_eq] at hex
-    simp only [run_bind, run_capture] at hex
-    rcases hl : (runLoop n (captureOf s2)).run s2 with ⟨r, s3⟩
-    rw [hl] at hex
-    cases r with
-    | ok u => exact absurd hex (runTail_not_err s3 s')
-    | error flt =>
-      dsimp only at hex
-      injection hex with h1 h2
-      subst h2
-      injection h1 with h1
-      subst h1
-      obtain ⟨s₀, top, rest, i, m, s₁, q1, q2, q3, q4, q5, q6, rfl⟩ := main_loop_err b a0 hA n _ s2 s3 hh hl
-      refine ⟨b, s₀, top, rest, i, m, s₁, hbm, q1, q2, q5, q6, fun hf => ?_⟩
-      have hsus2 : s2.suspended = [] := by rw [hs2]; exact hsu
-      have hsus1 : s₁.suspended = [] := by rw [hf.susp, q4, hsus2]
-      have hext : Extends s2 s₁ := by
-        refine ⟨by rw [show s2.data = [] by rw [hs2]; exact hd]; exact List.nil_suffix, ?_,
-          by rw [show s2.addr = [] by rw [hs2]; exact ha]; exact List.nil_suffix, by rw [hsus2]; exact List.nil_suffix⟩
-        have : linAt (captureOf s2) s₁ = s₁.linear := by
-          unfold linAt; rw [hsus1]; simp
-        rw [this, show s2.linear = b.linear by rw [hbl, hs2]; rfl]
-        exact hf.lin
-      have hre := restore_exact_vm s2 s₁ hext
-      have he2 : TExt s2 s₁ := q3.trans hf.ext
-      have hidx : mainFn < s2.fns.length := by have := hw2.two; show 0 < s2.fns.length; omega
-      have hfo : fnOf s₁ mainFn = fnOf s2 mainFn := he2.fnOf mainFn hidx
-      obtain ⟨sx, hsx0⟩ : ∃ sx : St, sx = park (restoreSt (captureOf s2) s₁) := ⟨_, rfl⟩
-      rw [← hsx0]
-      have hsx := hsx0
-      rw [hre] at hsx
-      have e1 : sx.fns = s₁.fns := by rw [hsx]; rfl
-      have e2 : sx.loops = s₁.loops := by rw [hsx]; rfl
-      have e3 : sx.curfunc = mainFn := by rw [hsx, hs2]; rfl
-      have hfx : fnOf sx mainFn = fnOf s2 mainFn := by
-        rw [← hfo]; simp only [VM.fnOf, e1]
-      have hux : (fnOf sx mainFn).user = false := by rw [hfx, hmain]; exact hu
-      have hwx : WF sx := by
-        have he' : TExt { s₁ with data := [] } sx := TExt.same e1 e2
-        refine hf.tab.mk' he' (fun id h1 h2 => ?_) ?_ ?_ ?_ ?_ ?_
-        · have : sx.fns.length = s₁.fns.length := by rw [e1]
-          have : ({ s₁ with data := [] } : St).fns.length = s₁.fns.length := rfl
-          omega
-        · rw [hsx]; exact hf.tab.loopstack
-        · rw [hsx]; exact hf.tab.scopes
-        · rw [hsx]; exact hf.tab.heap
-        · rw [hsx]; exact hf.tab.lazies
-        · rw [hsx]; show ∀ c ∈ s2.data, _; rw [hs2]; show ∀ c ∈ s1.data, _; rw [hd]; intro c hc; cases hc
-      refine ⟨hwx, ⟨hux, ?_, ?_, ?_⟩, by rw [hsx, hs2]; exact hd, by rw [hsx, hs2]; rfl, by rw [hsx, hs2]; exact ha,
-        hwx.loopstack, e3, by rw [hsx]; exact hsus2⟩
-      · rw [hfx, hcodeM]
-        have : (szS s1).le (szS sx) := by
-          have := he2.sz
-          rw [hsz] at this
-          exact ⟨Nat.le_trans this.1 (by show s₁.loops.length ≤ sx.loops.length; rw [e2]; exact Nat.le_refl _),
-            Nat.le_trans this.2 (by show s₁.fns.length ≤ sx.fns.length; rw [e1]; exact Nat.le_refl _)⟩
-        exact (AllOK.append hold hcode).mono this
-      · rw [hfx, hcodeM]
-        refine idsIn_mono hidsM (Nat.le_refl _) ?_
-        rw [e2, ← hloops]; exact he2.loops_len
-      · have hcs : curSize sx = ((fnOf sx mainFn).code.length : Int) := by simp [curSize, e3, hux]
-        rw [← hcs, hsx]; rfl
-
-/-! ## One text that ends in an error -/
-
-/-- **A text of the grammar that ends in an error**, served by an interpreter that satisfies the
-invariants and is at rest: the error has a fault — a state `s₀` of the run that satisfies the
-run-time invariant, the instruction `i` fetched there, the state `s₁` its failing `exec` left —
-and if `s₁` is `FaultOK` (it is when `i` is not a call instruction: `faultOK_simple`) the
-interpreter is served again: table invariant, `mainfunc`, AT REST with the three stacks exactly
-those of entry. -/
-theorem runText_err (fuel : Nat) (es : List Expr) (s s' : St) (v : String) (tr : List String) (d : String) (alive : Bool)
-    (hs : Served s) (hok : okLs es = true) (h : runText fuel es s = (Outcome.done "err" v tr d, s', alive)) :
-    ∃ b s₀ top rest i m s₁, b.main = true ∧ WF s₀ ∧ Running b s₀ top rest ∧
-      (fnOf s₀ s₀.curfunc).code[s₀.pc.toNat]? = some i ∧ (exec m i).run s₀ = (.error .err, s₁) ∧
-      (FaultOK b s₀ s₁ → Served s') := by
-  obtain ⟨hw, hm, ⟨hd, hl, ha, hls, hcf, hpc⟩, hsusp⟩ := hs
-  obtain ⟨s0, hs0⟩ : ∃ s0 : St, s0 = { s with trace := [] } := ⟨_, rfl⟩
-  have hw0 : WF s0 := by
-    rw [hs0]
-    exact hw.mk' (TExt.same rfl rfl) (fun id h1 h2 => absurd h2 (Nat.not_lt.mpr h1)) hw.loopstack hw.scopes hw.heap hw.lazies hw.data
-  rcases hload : (runGen (compileBegin (isFnScope s0) {} es)).run s0 with ⟨r, s1⟩
-  cases r with
-  | error e =>
-    exfalso
-    unfold runText at h
-    rw [← hs0] at h
-    simp only [hload] at h
-    have := congrArg (fun x => x.1) h
-    simp at this
-  | ok ct =>
-    obtain ⟨code, t⟩ := ct
-    rw [hs0] at hload
-    rw [runText_loaded fuel es s s1 code t hpc hload] at h
-    rw [← hs0] at hload
-    rcases hr : (run fuel).run (loaded s1 code) with ⟨r, s3⟩
-    rw [hr] at h
-    have hcls : r = .error .err ∧ s3 = s' := by
-      cases r with
-      | ok val => simp only [finishRun] at h; have := congrArg (fun x => x.1) h; simp at this
-      | error e =>
-        cases e with
-        | err => simp only [finishRun] at h; cases h; exact ⟨rfl, rfl⟩
-        | panic => simp only [finishRun] at h; have := congrArg (fun x => x.1) h; simp at this
-        | timeout => simp only [finishRun] at h; have := congrArg (fun x => x.1) h; simp at this
-    obtain ⟨rfl, rfl⟩ := hcls
-    obtain ⟨hw1, he1, d1, l1, a1, c1, p1, _, hcode, hids, as, τ, hfrag, h0, _⟩ := load_ok (isFnScope s0) es code t hw0 hok hload
-    have hidx : mainFn < s0.fns.length := by have := hw0.two; show 0 < s0.fns.length; omega
-    have hfo : fnOf s1 mainFn = fnOf s mainFn := by rw [he1.fnOf mainFn hidx, hs0]; rfl
-    have hsz : (szS s).le (szS s1) := by have := he1.sz; rw [hs0] at this; exact this
-    obtain ⟨b, s₀, top, rest, i, m, s₁, q0, q1, q2, q3, q4, q5⟩ := run_loaded_err code as s0.loops.length fuel s3 hw1
-      (by rw [d1, hs0]; exact hd) (by rw [a1, hs0]; exact ha) (by rw [load_susp _ _ hload, hs0]; exact hsusp)
-      (by rw [hfo]; exact hm.user) (by rw [hfo]; exact hm.code.mono hsz)
-      (by rw [hfo, hs0]; exact hm.ids) hids he1.loops_len (by rw [p1, hfo, hs0]; exact hm.pc) hcode hfrag h0 hr
-    refine ⟨b, s₀, top, rest, i, m, s₁, q0, q1, q2, q3, q4, fun hf => ?_⟩
-    obtain ⟨r1, r2, r3, r4, r5, r6, r7, r8⟩ := q5 hf
-    refine ⟨r1, r2, ⟨r3, by rw [r4, l1, hs0]; exact hl, r5, r6, r7, ?_⟩, r8⟩
-    have hcs : curSize s3 = ((fnOf s3 mainFn).code.length : Int) := by
-      simp [curSize, r7, r2.user]
-    rw [hcs, r2.pc]
-    exact Int.le_refl _
-
-/-- (C1 at the level of texts) **an error raised by a non-call instruction — at any depth of
-activations of the outermost loop, in the code of the top-level text or of any function called
-in that loop — leaves the interpreter served and at rest**: the fault of `runText_err`, and if
-its instruction is not `callArr`/`callExpr` (an unbound symbol, a failed `break`, a type error
-of an assignment, a wrong-arity tail call …) the conclusion holds outright. -/
-theorem runText_err_simple_partial (fuel : Nat) (es : List Expr) (s s' : St) (v : String) (tr : List String) (d : String)
-    (alive : Bool) (hs : Served s) (hok : okLs es = true)
-    (h : runText fuel es s = (Outcome.done "err" v tr d, s', alive)) :
-    ∃ b s₀ top rest i m s₁, b.main = true ∧ WF s₀ ∧ Running b s₀ top rest ∧
-      (fnOf s₀ s₀.curfunc).code[s₀.pc.toNat]? = some i ∧ (exec m i).run s₀ = (.error .err, s₁) ∧
-      (simple i = true → Served s') := by
-  obtain ⟨b, s₀, top, rest, i, m, s₁, q0, q1, q2, q3, q4, q5⟩ := runText_err fuel es s s' v tr d alive hs hok h
-  refine ⟨b, s₀, top, rest, i, m, s₁, q0, q1, q2, q3, q4, fun hsi => q5 ?_⟩
-  cases m with
-  | zero => simp only [VM.exec, run_throw] at q4; cases q4
-  | succ n => exact faultOK_simple q1 q2 q3 hsi n .err q4
-
-/-- what (C2) has to provide: a failing CALL instruction (`callArr`, `callExpr`) fetched by a
-`Running` loop leaves a `FaultOK` state — the nested evaluators restore on every error path -/
-def CallFaultOK : Prop :=
-  ∀ (b : Base) (s₀ s₁ : St) (top : Act) (rest : List Act) (i : Instr) (m : Nat), WF s₀ → Running b s₀ top rest →
-    (fnOf s₀ s₀.curfunc).code[s₀.pc.toNat]? = some i → simple i = false →
-    (exec m i).run s₀ = (.error .err, s₁) → FaultOK b s₀ s₁
-
-/-- with it, the served states are closed under erroring texts -/
-theorem runText_err_served (hcall : CallFaultOK) (fuel : Nat) (es : List Expr) (s s' : St) (v : String) (tr : List String)
-    (d : String) (alive : Bool) (hs : Served s) (hok : okLs es = true)
-    (h : runText fuel es s = (Outcome.done "err" v tr d, s', alive)) : Served s' := by
-  obtain ⟨b, s₀, top, rest, i, m, s₁, _, q1, q2, q3, q4, q5⟩ := runText_err fuel es s s' v tr d alive hs hok h
-  apply q5
-  cases hsi : simple i with
-  | true =>
-    cases m with
-    | zero => simp only [VM.exec, run_throw] at q4; cases q4
-    | succ n => exact faultOK_simple q1 q2 q3 hsi n .err q4
-  | false => exact hcall b s₀ s₁ top rest i m q1 q2 q3 hsi q4
 
 end ZygoVerif.RunInv
